@@ -87,14 +87,24 @@ def convert4To2rankTensor(c4):
         c2[i,j] = c4[vMap[i][0], vMap[i][1], vMap[j][0], vMap[j][1]]
     return c2
 
+#Weights of the 6 index pairs (11, 22, 33, 23, 13, 12) in a double contraction a_ijkl * b_kl:
+#the pairs 23, 13 and 12 occur twice (kl and lk). Scaling the rows and columns of a 6x6 tensor
+#by the square root of these weights (Mandel notation) turns the double contraction of tensors with
+#minor symmetry into an ordinary matrix product, so that products and inverses of 6x6 arrays
+#correspond to those of the 4th rank tensors
+_pairWeights = np.array([1, 1, 1, 2, 2, 2])
+_mandelVec = np.sqrt(_pairWeights)
+_mandelMat = np.outer(_mandelVec, _mandelVec)
+
 def invert4rankTensor(c4):
     '''
-    Inverts 4th rank tensor to give stiffness tensor
+    Inverts 4th rank tensor (with minor symmetry) to give stiffness tensor
+    inv_ijmn * c_mnkl = 1/2 (d_ik d_jl + d_il d_jk)
 
-    This is done by converting to 2nd rank, inverting, then converting back to 4th rank
+    This is done by converting to 2nd rank (Mandel notation), inverting, then converting back to 4th rank
     '''
-    c2 = convert4To2rankTensor(c4)
-    return convert2To4rankTensor(np.linalg.inv(c2))
+    c2 = convert4To2rankTensor(c4) * _mandelMat
+    return convert2To4rankTensor(np.linalg.inv(c2) / _mandelMat)
 
 def convertVecTo2rankTensor(v):
     '''
@@ -571,8 +581,9 @@ class EllipsoidalEnergyDescription(StrainEnergyDescriptionBase):
         eigenstrain = self.params.eigenstrain
 
         V = 4*np.pi/3 * np.prod(radius)
-        S = convert4To2rankTensor(self.Sijmn(self.Dijkl(radius, c4)))
-        eigFlat = convert2rankToVec(eigenstrain)
+        c2 = c2 * _mandelMat
+        S = convert4To2rankTensor(self.Sijmn(self.Dijkl(radius, c4))) * _mandelMat
+        eigFlat = convert2rankToVec(eigenstrain) * _mandelVec
         multTerm = np.matmul(c2, S - np.eye(6))
         return -0.5 * V * np.matmul(eigFlat, np.matmul(multTerm, eigFlat))
 
@@ -602,8 +613,10 @@ class EllipsoidalEnergyDescription(StrainEnergyDescriptionBase):
         cP2 = self.params.cPrec_2nd
 
         V = 4*np.pi/3 * np.prod(radius)
-        S = convert4To2rankTensor(self.Sijmn(self.Dijkl(radius, cM4)))
-        eigFlat = convert2rankToVec(eigenstrain)
+        cM2 = cM2 * _mandelMat
+        cP2 = cP2 * _mandelMat
+        S = convert4To2rankTensor(self.Sijmn(self.Dijkl(radius, cM4))) * _mandelMat
+        eigFlat = convert2rankToVec(eigenstrain) * _mandelVec
         invTerm = np.linalg.inv(np.matmul(cP2 - cM2, S) + cM2)
         multTerm = np.matmul(invTerm, cP2)
         stressC = np.matmul(cM2, np.matmul(np.matmul(S, multTerm), eigFlat))
@@ -959,7 +972,8 @@ class StrainEnergy:
         '''
         if stress.any() and cM2.any():
             flatStress = convert2rankToVec(stress)
-            flatStrain = np.matmul(np.linalg.inv(cM2), flatStress)
+            #stress_ij = c_ijkl * strain_kl, the pairs 23, 13 and 12 are summed twice
+            flatStrain = np.matmul(np.linalg.inv(cM2), flatStress) / _pairWeights
             return convertVecTo2rankTensor(flatStrain)
         else:
             return np.zeros((3,3))
